@@ -7,14 +7,14 @@ from vlib import *
 ALL_RICH = ["sub", "bind", "unsub", "unbind", "write", "read", "entrem", "entadd", "discover", "disconnect",
             "lsub", "lbind", "lunsub", "lunbind", "listsubs", "listbinds"]
 ALL_COMPS = ["out", "ev", "ret", "conn", "known", "subs", "binds", "csub", "cbind", "data",
-             "panic", "dupout", "dupev", "ids", "resolve", "tree", "cbf", "reqs", "dupcb", "ucs", "hasuc"]
+             "panic", "dupout", "dupev", "ids", "resolve", "tree", "cbf", "reqs", "dupcb", "ucs", "hasuc", "late"]
 
 COMP_MEANING = {
     "out": "replies/results/notifications written per connection", "ev": "events published", "ret": "API return",
     "conn": "connected devices", "known": "remote entity tree", "subs": "subscription registry", "binds": "binding registry",
     "csub": "client-side subscription bookkeeping", "cbind": "client-side binding bookkeeping", "data": "local function data",
     "panic": "no panic", "dupout": "no duplicate datagram", "dupev": "no duplicate event", "ids": "registry ids distinct",
-    "resolve": "device resolvable by SKI/address iff connected"}
+    "resolve": "device resolvable by SKI/address iff connected", "late": "nothing written to a connection after the call had returned"}
 
 
 def consts(peers=("p1", "p2"), acts=(), rich=(), maxval=1, devs=(), ghost=0, tiny=(), maxreq=3):
@@ -267,7 +267,8 @@ def execute(prop, tier, seed, P, replay=None, clear=True):
         jobs, res = jobs[:len(jobs) - len(fault_gens)], res[:len(res) - len(fault_gens)]
         mcs = [r for (k, _), r in zip(jobs, res) if k == "mc"]
         groups = [r[1] for (k, _), r in zip(jobs, res) if k != "mc"]
-        topo = next(r[0] for (k, _), r in zip(jobs, res) if k == "gen")
+        # the system under test has the peers of the profile (a generator may use fewer of them)
+        topo = max((r[0] for (k, _), r in zip(jobs, res) if k == "gen"), key=lambda t: len(json.loads(t)["peers"]))
         gen_trans = nbfs = sum(len(r[1]) for (k, _), r in zip(jobs, res) if k == "gen")
         # cap: stratified - small generators are kept whole, the budget left is shared by the large ones
         cap = T.get("cap")
